@@ -321,8 +321,9 @@ func (self *linkedPairs) Get(key string) (*Pair, int) {
 		// fast-path
 		i, ok := self.index[caching.StrHash(key)]
 		if ok {
-			n := self.At(i)
-			if n.Key == key {
+			// the entry may be stale: Node.Unset clears the pair without touching the index,
+			// and Pop may have dropped the slot altogether
+			if n := self.At(i); n != nil && n.Key == key {
 				return n, i
 			}
 			// hash conflicts
